@@ -311,7 +311,12 @@ class ProvXMLSerializer(Serializer):
                 continue
             if isinstance(value, prov.model.Literal):
                 value = value.value
-            if value in PROV_BASE_CLS and PROV_BASE_CLS[value] != value:
+            # only a subtype of this very record type selects the element name
+            if (
+                value in PROV_BASE_CLS
+                and PROV_BASE_CLS[value] != value
+                and PROV_BASE_CLS[value] == rec_type
+            ):
                 attributes.remove((key, value))
                 rec_label = FULL_NAMES_MAP[value]
                 break
